@@ -110,6 +110,21 @@ def strat_algebra(draw):
             "ops": ops, "fch1": ch["fch1"], "foff": ch["foff"]}
 
 
+@st.composite
+def strat_file(draw):
+    c = draw(strat_algebra())
+    if draw(st.integers(0, 3)):
+        c["hdr"] = {"ra_deg": draw(st.floats(0, 359.999, allow_nan=False)), "dec_deg": draw(st.floats(-89.9, 89.9, allow_nan=False)),
+                    "az": draw(st.floats(0, 359.9, allow_nan=False)), "za": draw(st.floats(0, 90, allow_nan=False)),
+                    "telescope": draw(st.sampled_from(["Parkes", "Effelsberg", "MeerKAT", "Fake"])),
+                    "backend": draw(st.sampled_from(["BPSR", "PUPPI", "FAKE"])),
+                    "source": draw(st.sampled_from(["J0437-4715", "B0531+21", "FRB 20121102A", ""])),
+                    "dm": draw(st.sampled_from([0.0, 12.5, 557.0])), "tstart": draw(st.sampled_from([55000.0, 59215.123456789])),
+                    "tsamp": draw(st.sampled_from([1e-3, 64e-6])), "ibeam": draw(st.integers(0, 13)), "nbeams": draw(st.integers(0, 13)),
+                    "nbits": draw(st.sampled_from([1, 2, 8, 32])), "frame": draw(st.sampled_from(["topocentric", "barycentric", "pulsarcentric"]))}
+    return c
+
+
 def mk_header(n, fch1, foff, nsamples=100, nbits=8, path="x.fil"):
     from sigpyproc.header import Header
 
@@ -356,6 +371,16 @@ def check_file(case, ctx):
 
     n = case["n"]
     hdr = mk_header(n, case["fch1"], case["foff"], nsamples=1234, nbits=8, path="some/dir/obs_01.fil")
+    hm = case.get("hdr")
+    if hm:
+        # a header as a reader would hand it over: a real sky position, pointing, names and numbers
+        import astropy.units as u
+        from astropy.coordinates import Angle, SkyCoord
+
+        hdr = hdr.new_header({"coord": SkyCoord(ra=hm["ra_deg"] * u.deg, dec=hm["dec_deg"] * u.deg), "azimuth": Angle(hm["az"] * u.deg),
+                              "zenith": Angle(hm["za"] * u.deg), "telescope": hm["telescope"], "backend": hm["backend"], "source": hm["source"],
+                              "dm": hm["dm"], "tstart": hm["tstart"], "tsamp": hm["tsamp"], "ibeam": hm["ibeam"], "nbeams": hm["nbeams"],
+                              "nbits": hm["nbits"], "frame": hm["frame"]})
     var, skew, kurt = (stats_vector(k, n, case["seed"] + i) for i, k in enumerate(case["kinds"]))
     mean = stats_vector("noise", n, case["seed"] + 7)
     with warnings.catch_warnings():
@@ -387,6 +412,13 @@ def check_file(case, ctx):
         if getattr(back.header, name) != getattr(m.header, name):
             raise Violation(f"file:header:{name}", f"{getattr(m.header, name)!r} -> {getattr(back.header, name)!r}")
     require(bool(back.header.signed) == bool(m.header.signed), "file:header:signed")
+    sep = float(m.header.coord.separation(back.header.coord).arcsec)
+    if not sep <= 1e-6:
+        raise Violation("file:header:coord", f"sky position {m.header.ra} {m.header.dec} -> {back.header.ra} {back.header.dec} ({sep:.3g} arcsec apart)")
+    for name in ("azimuth", "zenith"):
+        a0, a1 = float(getattr(m.header, name).deg), float(getattr(back.header, name).deg)
+        if abs(a0 - a1) > 1e-9:
+            raise Violation(f"file:header:{name}", f"{a0!r} deg -> {a1!r} deg")
     cm = np.asarray(m.chan_mask, bool)
     return Info(bool(cm.any() and not cm.all()), ("file",))
 
@@ -397,6 +429,6 @@ def subchecks(tier):
                  examples={"quick": 1500, "thorough": 60000}, shards={"quick": 5, "thorough": 16}),
         SubCheck("clean", check_clean, strategy=lambda t: strat_clean(t),
                  examples={"quick": 400, "thorough": 16000}, shards={"quick": 6, "thorough": 16}),
-        SubCheck("file", check_file, strategy=lambda t: strat_algebra(),
+        SubCheck("file", check_file, strategy=lambda t: strat_file(),
                  examples={"quick": 300, "thorough": 8000}, shards={"quick": 2, "thorough": 4}),
     ]
